@@ -181,7 +181,14 @@ type frame struct {
 	prefix []int
 	pre    int // preemptions used by prefix
 	dev    int // deviations used by prefix
+	level  int // depth in the exploration tree (root execution = 0)
 }
+
+// shardLevel is the tree depth at which subtrees are dealt out to shards: executions above it
+// (the root and its children — a few hundred) are run by every shard and counted by shard 0, the
+// subtrees below them are explored by exactly one shard. One level is not enough: with a small
+// preemption bound almost all work sits under the few cost-free alternatives of the root.
+const shardLevel = 3
 
 func hashStrs(ss []string) uint64 {
 	h := fnv.New64a()
@@ -339,17 +346,16 @@ func Explore(sc *Scenario, opt Options) *Stats {
 					np[j] = x.points[j].Chosen
 				}
 				np[i] = alt
-				if opt.NShard > 1 && len(f.prefix) == 0 {
-					// shard on the first-level subtrees (the root execution belongs to shard 0)
+				if opt.NShard > 1 && f.level == shardLevel-1 {
 					if shardOf(np)%opt.NShard != opt.Shard {
 						continue
 					}
 				}
-				stack = append(stack, frame{prefix: np, pre: pre + cpre, dev: dev + cdev})
+				stack = append(stack, frame{prefix: np, pre: pre + cpre, dev: dev + cdev, level: f.level + 1})
 			}
 		}
-		if opt.NShard > 1 && len(f.prefix) == 0 && opt.Shard != 0 {
-			// root execution counted by shard 0 only
+		if opt.NShard > 1 && f.level < shardLevel && opt.Shard != 0 {
+			// executions above the sharding level are counted by shard 0 only
 			st.Executions--
 			st.Steps -= int64(r.Steps)
 		}
